@@ -236,12 +236,21 @@ class FnVerifier:
         if "keys" in g:
             ks = g["keys"]
             g2["keys"] = fresh(ks.t, base + ".keys")
-        R.ghost[("cell", loc)] = g2
+        R.heap[loc].ghost = g2
 
     def assume_cnt_wf(self, R, content, cnt):
-        x = z3.Const(fresh_name("x"), content.t.elem.sort())
-        R.assume(z3.ForAll([x], z3.Select(cnt, x) >= 0))
-        R.assume(z3.ForAll([x], (z3.Select(cnt, x) >= 1) == z3.Contains(content.z, z3.Unit(x))))
+        """link between a sequence and its ghost multiset count, in E-matching friendly index form:
+        counts are >= 0; every element has count >= 1; every value with count >= 1 occurs at some
+        index (skolem function)."""
+        et = content.t.elem
+        x = z3.Const(fresh_name("x"), et.sort())
+        k = z3.Int(fresh_name("k"))
+        n = z3.Length(content.z)
+        wit = z3.Function(fresh_name("wit"), et.sort(), z3.IntSort())
+        R.assume(z3.ForAll([x], z3.Select(cnt, x) >= 0, patterns=[z3.Select(cnt, x)]))
+        R.assume(z3.ForAll([k], z3.Implies(z3.And(0 <= k, k < n), z3.Select(cnt, content.z[k]) >= 1), patterns=[content.z[k]]))
+        R.assume(z3.ForAll([x], z3.Implies(z3.Select(cnt, x) >= 1, z3.And(0 <= wit(x), wit(x) < n, content.z[wit(x)] == x)),
+                           patterns=[z3.Select(cnt, x)]))
 
     def note_violation_flag(self, R, flag, node):
         self.add_obligation(R, "flag", flag, z3.BoolVal(False), clause=flag, line=node.lineno)
@@ -268,6 +277,13 @@ class FnVerifier:
 
             return _CM()
         raise Unsupported("with-statement over %r" % (cmv,))
+
+    def emit_log(self, R, evname, val):
+        st = T.Seq(val.t)
+        cur = R.ghost.get(("log", evname))
+        if cur is None:
+            cur = V(st, z3.Empty(st.sort()))
+        R.ghost[("log", evname)] = V(st, z3.Concat(cur.z, z3.Unit(val.z)))
 
     def emit(self, R, evname, args, node):
         """append an event to the effect trace (and its log)"""
@@ -314,7 +330,7 @@ class FnVerifier:
             r = R.alloc(ty, c)
             if ty.counted:
                 cnt = z3.Const(name + ".cnt", z3.ArraySort(ty.elem.sort(), z3.IntSort()))
-                R.ghost[("cell", r.z)] = {"cnt": cnt}
+                R.heap[r.z].ghost = {"cnt": cnt}
                 self.assume_cnt_wf(R, c, cnt)
             return r
         if k == "dict":
@@ -330,11 +346,17 @@ class FnVerifier:
                 x = z3.Const(fresh_name("x"), ty.k.sort())
                 R.assume(z3.ForAll([x], z3.Select(c.t.has(c.z), x) == z3.Contains(ks.z, z3.Unit(x))))
                 R.assume(z3.Length(ks.z) == sz)
-            R.ghost[("cell", r.z)] = g
+            R.heap[r.z].ghost = g
             return r
         if k == "set":
             c = V(ty.content(), z3.Const(name, ty.content().sort()))
             return R.alloc(ty, c)
+        if k == "drec":
+            fields = {}
+            r = R.alloc(ty, fields)
+            for fn_, ft in ty.rec().fields.items():
+                fields[fn_] = V(ft, z3.Const("%s[%s]" % (name, fn_), ft.sort()))
+            return r
         if k == "obj":
             fields = {}
             r = R.alloc(ty, fields)
@@ -377,6 +399,7 @@ class FnVerifier:
                         line=(line - self.base_line) if line else None, meta=meta or {})
         ob.bounded = R.bounded
         ob.inputs = R.inputs
+        ob.R = R
         self.obligations[name] = ob
 
     # ------------------------------------------------------------------ calls
@@ -434,6 +457,13 @@ class FnVerifier:
         ext = self.c.externals.get(key)
         if ext is not None and getattr(ext, "is_attr", False):
             return self.apply_ext(R, key, ext, [], {}, node, None, recv=base)
+        return None
+
+    def drec_for(self, rec_ty):
+        """the DRec type whose boxed form is rec_ty (from contract config 'records')"""
+        for dr in self.c.config.get("records", ()):
+            if dr.rec() == rec_ty:
+                return dr
         return None
 
     def log_type(self, evname):
@@ -546,7 +576,10 @@ class FnVerifier:
         if ext.event:
             R.trace.append(Event(ext.event, args, kwargs))
             li = ext.log if ext.log is not None else 0
-            if li < len(args) and not args[li].is_const and not args[li].t.heap and args[li].t == self.log_type(ext.event):
+            if li == "recv":
+                if recv is not None:
+                    self.emit_log(R, ext.event, recv)
+            elif li < len(args) and not args[li].is_const and not args[li].t.heap and args[li].t == self.log_type(ext.event):
                 lt = self.log_type(ext.event)
                 st = T.Seq(lt)
                 cur = R.ghost.get(("log", ext.event))
@@ -578,7 +611,14 @@ class FnVerifier:
             uargs = [a for a in args if not a.is_const] + [v for v in kwargs.values() if not v.is_const]
             if recv is not None and not recv.is_const and not recv.t.heap:
                 uargs = [recv] + uargs
-            res = self.uf_apply(R, name, uargs, rt)
+            if ext.args:
+                fixed = []
+                for a, t in zip(uargs, ext.args):
+                    if a.t != t and a.t.kind == "union" and a.t.index(t) is not None:
+                        a = V(t, a.t.proj(a.z, t))
+                    fixed.append(a)
+                uargs = fixed + uargs[len(fixed):]
+            res = self.uf_apply(R, ext.uf or name, uargs, rt)
         elif rt.heap:
             res = self.alloc_symbolic(R, rt, fresh_name(name.split(".")[-1]))
         else:
@@ -617,6 +657,8 @@ class FnVerifier:
             a2 = [recv] + a2
         R.bind_params(fd.args, a2, dict(kwargs), f2, Frame({}, None))
         env = dict(R.base_env)
+        for dname, dsrc in cc.defs.items():
+            env[dname] = const(Closure(self.parse_clause(dsrc), None))
         env.update(f2.env)
         env["__old_env__"] = dict(f2.env)
         cname = short_target(cc.target).split("::")[1]
@@ -660,6 +702,9 @@ class FnVerifier:
         self.bind_lets(R, cc, env, old)
         for lbl, en in cc.ensures.items():
             R.assume(R.truthy(self.spec_in_env(R, en, env, old_heap=old)))
+        for label, callee in self.c.snapshots.items():
+            if callee == cname.split(".")[-1] and label not in R.named_heaps:
+                R.named_heaps[label] = R.snapshot()
         return res
 
     def havoc_modifies(self, R, cc, env, frame):
@@ -716,6 +761,9 @@ class FnVerifier:
             R.base_env = dict(R.globals_)
             R.base_env.update(entry_env)
             R.base_env["__old_env__"] = dict(entry_env)
+            for dname, dsrc in c.defs.items():
+                R.base_env[dname] = const(Closure(self.parse_clause(dsrc), None))
+            R.named_heaps = {}
             self.install_ghost_fns(R)
             for lbl, rq in c.requires.items():
                 R.assume(R.truthy(self.spec_in_env(R, rq, R.base_env)))
@@ -823,7 +871,10 @@ class FnVerifier:
                 cz = R.truthy(self.spec_in_env(R, cond, env, entry_heap=R.entry_heap))
                 self.add_obligation(R, "must-raise", cls, z3.Not(self._old(R, cond, env)), clause="returns normally although: " + cond)
             for lbl, en in c.ensures.items():
-                g = R.truthy(self.spec_in_env(R, en, env))
+                try:
+                    g = R.truthy(self.spec_in_env(R, en, env))
+                except ClauseVacuous:
+                    continue
                 self.add_obligation(R, "ensures", lbl, g, clause=en)
         else:
             exc = payload
@@ -842,7 +893,10 @@ class FnVerifier:
                     self.add_obligation(R, "raises", exc.cls, self._old(R, allowed, env), clause="%s only when: %s" % (exc.cls, allowed))
                 env["exc"] = const(exc)
                 for lbl, en in c.ensures_exc.items():
-                    g = R.truthy(self.spec_in_env(R, en, env))
+                    try:
+                        g = R.truthy(self.spec_in_env(R, en, env))
+                    except ClauseVacuous:
+                        continue
                     self.add_obligation(R, "ensures-exc", lbl, g, clause=en)
 
     def _old(self, R, src, env):
@@ -857,6 +911,20 @@ class FnVerifier:
             return R.truthy(R.ev(node, None))
         finally:
             R.pure, R.spec_env, R.old_heap = s2
+
+    def model_eval(self, ob, src):
+        """value of a spec expression over the ENTRY state under the obligation's counter-model"""
+        from . import modelval
+
+        R = ob.R
+        e = dict(R.base_env)
+        s2 = (R.pure, R.spec_env, R.old_heap)
+        R.pure, R.spec_env, R.old_heap = True, e, R.entry_heap
+        try:
+            v = R.freeze(R.ev(self.parse_clause(src), None))
+        finally:
+            R.pure, R.spec_env, R.old_heap = s2
+        return modelval.conv(ob.model, v.t, v.z)
 
     # ------------------------------------------------------------------ driver
     def generate(self):
